@@ -42,6 +42,11 @@ def check(repo, res, tier):
                         'an observation admitted while another is still streaming is checked against current free space only (DESIGN.md section 6)']
     b1_b2(repo, res, canon, pc, logic)
     b3(repo, res, canon, logic)
+    from . import c16 as _c16
+    from .common import borrow as _b16
+    res.rule('C07.B10', 'adopted C16.K2: the rate limit the hot tier enforces is the configured one times the unit factor '
+                        '(a limit rounded up accepts ingest above the maximum)')
+    _b16(repo, res, tier, _c16, {'C16.K2'}, 'C07.B10')
     from . import initial
     res.rule('C07.B9', 'initial state: an observation holds no data, nothing is pending between the tiers')
     initial.check_values(repo, res, 'C07.B9', [('Observation', 'total_data_size', 0), ('Buffer', '_data_left_to_transfer', 0)],
